@@ -117,6 +117,9 @@ pub fn exec_par(w: &mut World, st: &Step) -> bool {
                 w.note_write(*off, *len as u64);
                 b.push(w.alloc_ids(*len as usize));
             } else {
+                if let Op::Discard { off, len } = op {
+                    w.note_discard(*off, *len);
+                }
                 b.push(0);
             }
         }
